@@ -44,6 +44,7 @@ For each change k in (1, 2) write into `/tmp/sdout-{pid}/`:
  * `meta{{k}}.json` — {{"property": "{pid}", "summary": "...", "needs_to_manifest": "...", "files": [...], "ran": ["commands you ran and their outcome"]}}.
 
 Verify all of it yourself (demo passes without / fails with the patch; baseline prints missing 0 with the patch).
+NEVER use `git stash` (the stash is shared by all worktrees of the repository and other seeders work in parallel): save changes with `git diff > file`, reset with `git checkout -- .`, re-apply with `git apply file`.
 Leave the worktree clean at the end (`git -C {wt} checkout -- .`, no untracked files).
 Reply with a 5-line summary per change.
 """)
